@@ -39,7 +39,7 @@ pub fn uncompact(cells: &[u64], target_resolution: i32) -> Result<Vec<u64>, Stri
     }
 
     // First calculate how much space is needed
-    let mut n = 0;
+    let mut n: usize = 0;
     let mut resolutions = Vec::with_capacity(cells.len());
     let mut canonical_cells = Vec::with_capacity(cells.len());
 
@@ -57,7 +57,14 @@ pub fn uncompact(cells: &[u64], target_resolution: i32) -> Result<Vec<u64>, Stri
         }
 
         resolutions.push(resolution);
-        n += get_num_children(resolution, target_resolution);
+        n = n
+            .checked_add(get_num_children(resolution, target_resolution))
+            .ok_or_else(|| {
+                format!(
+                    "Uncompacting to resolution {} would produce too many cells",
+                    target_resolution
+                )
+            })?;
     }
 
     // Write directly into pre-allocated vec
